@@ -1092,6 +1092,11 @@ func (e *UtlsPaddingExtension) UnmarshalJSON(b []byte) error {
 		return err
 	}
 
+	if jsonObj.Length > 0xffff {
+		// the extension body has a uint16 length; larger values used to wrap into a negative int
+		return errors.New("padding extension length must not exceed 65535")
+	}
+
 	if jsonObj.Length == 0 {
 		e.GetPaddingLen = BoringPaddingStyle
 	} else {
